@@ -3,7 +3,7 @@
 import ast
 import z3
 from pyvc.engine import (Engine, Obj, Builtin, Bound, Func, ClassV, Dyn, Lazy, Opaque, Exc, PyRaise, Unsupported,
-                         find_func, verify, b_wait, pow2, fmod, fdiv, is_sym, is_symbytes, to_z3bytes, BYTES)
+                         find_func, verify, b_wait, pow2, fmod, fdiv, is_sym, is_symbytes, to_z3bytes, BYTES, slen, abstract_seq, announced_len)
 
 ACTIVE_FINDINGS = set()
 
